@@ -157,7 +157,7 @@ func (x *Exec) checkRun(rec *StepRecord) {
 	firedOSWrite := false // error injected on open/write of an output file or gengo.sum
 	firedAny := rec.Killed
 	sumReadFault := false
-	hashFaultPkgs := map[string]bool{}
+	hashFaultFiles := map[string]bool{} // files whose second open during load (the directory hash) was made to fail
 	editPaths := map[string]bool{}
 	if resp != nil {
 		if len(resp.Fired) > 0 {
@@ -188,7 +188,7 @@ func (x *Exec) checkRun(rec *StepRecord) {
 					sumReadFault = true
 				} else if e.Exec < 0 && e.Nth >= 1 {
 					// during load a source file is opened first by the parser, then by the directory hash
-					hashFaultPkgs[filepath.Dir(e.Path)] = true
+					hashFaultFiles[e.Path] = true
 				}
 			case "os.read":
 				if e.Path == "gengo.sum" {
@@ -203,12 +203,28 @@ func (x *Exec) checkRun(rec *StepRecord) {
 		}
 	}
 
-	// a package whose directory hash was made to fail has no load-time hash
-	for _, pi := range rec.Local {
-		if hashFaultPkgs[filepath.Clean(m.Pkgs[pi].Dir)] {
-			delete(rec.Hload, m.ImportPath(pi))
-			x.Env.Stats.Add("probe/hash-failed-at-load", 1)
+	// A directory hash is recursive, so a file of a nested package is also opened by the hash of every
+	// enclosing package, in an order the trace does not reveal: every local package whose directory
+	// contains the file MAY have lost its load-time hash; if there is only one, it certainly has.
+	hashFaultPkgs := map[string]bool{} // certainly failed
+	rec.HashMaybeFailed = map[string]bool{}
+	for f := range hashFaultFiles {
+		var cands []int
+		for _, pi := range rec.Local {
+			d := filepath.Clean(m.Pkgs[pi].Dir)
+			if filepath.Clean(filepath.Dir(f)) == d || strings.HasPrefix(f, d+"/") {
+				cands = append(cands, pi)
+			}
 		}
+		for _, pi := range cands {
+			rec.HashMaybeFailed[m.ImportPath(pi)] = true
+		}
+		if len(cands) == 1 {
+			hashFaultPkgs[filepath.Clean(m.Pkgs[cands[0]].Dir)] = true
+			delete(rec.Hload, m.ImportPath(cands[0]))
+			delete(rec.HashMaybeFailed, m.ImportPath(cands[0]))
+		}
+		x.Env.Stats.Add("probe/hash-failed-at-load", 1)
 	}
 
 	// ---- T1 / E5: only own output files are touched (every run, also failed and killed ones)
@@ -694,67 +710,76 @@ func (x *Exec) checkSum(rec *StepRecord) {
 		x.violate("C08", "S2", "sum-missing-after-successful-run", err.Error(), nil)
 		return
 	}
-	want := x.expectedSum(rec)
-	unhashable := false
+	var paths []string
 	for _, pi := range rec.Local {
-		if _, ok := rec.Hload[m.ImportPath(pi)]; !ok {
-			unhashable = true
-		}
+		paths = append(paths, m.ImportPath(pi))
 	}
-	if !unhashable {
-		if !bytes.Equal(data, want) {
-			class := "sum-content-wrong"
-			gl, wl := strings.Split(string(data), "\n"), strings.Split(string(want), "\n")
-			sg, sw := append([]string{}, gl...), append([]string{}, wl...)
-			sort.Strings(sg)
-			sort.Strings(sw)
-			if strings.Join(sg, "\n") == strings.Join(sw, "\n") {
-				class = "sum-not-sorted"
-			} else if len(gl) == len(wl) {
-				same := true
-				for i := range gl {
-					if strings.Fields(gl[i] + " x")[0] != strings.Fields(wl[i] + " x")[0] {
-						same = false
-					}
-				}
-				if same {
-					class = "sum-hash-not-load-time-hash"
-				}
-			}
-			x.violate("C08", "S2", class, fmt.Sprintf("got %q want %q", clip(string(data)), clip(string(want))), nil)
+	sort.Strings(paths)
+	// the hash a line may carry: the driver's load-time hash; nothing for a directory that cannot be
+	// hashed; either of the two where an injected fault may or may not have hit this package's hash
+	okHash := func(p, h string) bool {
+		want, hashable := rec.Hload[p]
+		switch {
+		case !hashable:
+			return h == ""
+		case rec.HashMaybeFailed[p]:
+			return h == want || h == ""
 		}
-	} else {
-		// every local package still has exactly one line, in sorted order
+		return h == want
+	}
+	text := string(data)
+	lines := strings.Split(strings.TrimSuffix(text, "\n"), "\n")
+	if text == "" {
+		lines = nil
+	}
+	bad := ""
+	switch {
+	case text != "" && !strings.HasSuffix(text, "\n"):
+		bad = "sum-content-wrong"
+	case len(lines) != len(paths):
+		bad = "sum-lines-wrong"
+	default:
 		var gotPaths []string
-		for _, l := range strings.Split(strings.TrimSuffix(string(data), "\n"), "\n") {
+		for _, l := range lines {
 			gotPaths = append(gotPaths, strings.SplitN(l, " ", 2)[0])
 		}
-		var wantPaths []string
-		for _, pi := range rec.Local {
-			wantPaths = append(wantPaths, m.ImportPath(pi))
+		sorted := append([]string{}, gotPaths...)
+		sort.Strings(sorted)
+		switch {
+		case strings.Join(sorted, "\n") != strings.Join(paths, "\n"):
+			bad = "sum-lines-wrong"
+		case strings.Join(gotPaths, "\n") != strings.Join(paths, "\n"):
+			bad = "sum-not-sorted"
+		default:
+			for i, l := range lines {
+				parts := strings.SplitN(l, " ", 2)
+				if len(parts) != 2 || strings.ContainsAny(parts[1], " \t\r") {
+					bad = "sum-content-wrong"
+				} else if !okHash(paths[i], parts[1]) {
+					bad = "sum-hash-not-load-time-hash"
+				}
+			}
 		}
-		sort.Strings(wantPaths)
-		if strings.Join(gotPaths, ",") != strings.Join(wantPaths, ",") {
-			x.violate("C08", "S2", "sum-lines-wrong", fmt.Sprintf("got %v want %v", gotPaths, wantPaths), nil)
-		}
+	}
+	if bad != "" {
+		x.violate("C08", "S2", bad, fmt.Sprintf("got %q want %q", clip(text), clip(string(x.expectedSum(rec)))), nil)
 	}
 	// S4: reading the file back (gengo's own reader, in the worker) yields the mapping
 	if rec.Resp.SumErr != "" {
 		x.violate("C08", "S4", "sum-unreadable-after-save", rec.Resp.SumErr, nil)
 		return
 	}
-	for _, pi := range rec.Local {
-		ip := m.ImportPath(pi)
-		h, ok := rec.Hload[ip]
-		if !ok {
-			continue
+	entries := 0
+	for _, p := range paths {
+		if !okHash(p, rec.Resp.Sum[p]) {
+			x.violate("C08", "S4", "read-back-differs", fmt.Sprintf("%s: read back %q, load-time hash %q", p, rec.Resp.Sum[p], rec.Hload[p]), nil)
 		}
-		if rec.Resp.Sum[ip] != h {
-			x.violate("C08", "S4", "read-back-differs", fmt.Sprintf("%s: read back %q, written for %q", ip, rec.Resp.Sum[ip], h), nil)
+		if rec.Resp.Sum[p] != "" {
+			entries++
 		}
 	}
-	if !unhashable && len(rec.Resp.Sum) != len(rec.Local) {
-		x.violate("C08", "S4", "read-back-extra-entries", fmt.Sprintf("%d entries for %d packages", len(rec.Resp.Sum), len(rec.Local)), nil)
+	if len(rec.Resp.Sum) != entries {
+		x.violate("C08", "S4", "read-back-extra-entries", fmt.Sprintf("%d entries, %d of them for the %d local packages", len(rec.Resp.Sum), entries, len(paths)), nil)
 	}
 }
 
